@@ -107,6 +107,7 @@ type c44Cl struct {
 type c44Model struct {
 	prop string // "C44" or "C45": which clauses are reported
 	n    int64  // last sequence number consumed
+	prog int64  // events other than poll ticks (progress indicator for the watchdog)
 
 	reqEnter, reqSent, reqCoal int
 	clWake                     int
@@ -239,6 +240,9 @@ func c44Hash(s string) string {
 
 func (m *c44Model) feed(e d2cli.VerifEvent) {
 	m.n = e.Seq
+	if e.Ev != "poll-tick" {
+		m.prog++
+	}
 	a := e.Args
 	arg := func(i int) string {
 		if i < len(a) {
@@ -520,10 +524,11 @@ func c44LeakedFrames() []string {
 // websocket client
 
 type c44Client struct {
-	idx  int
-	hid  string
-	conn *websocket.Conn
-	addr string
+	idx   int
+	hid   string
+	conn  *websocket.Conn
+	addr  string
+	trace func(ev string, args ...any)
 
 	mu      sync.Mutex
 	recv    []string
@@ -533,7 +538,10 @@ type c44Client struct {
 }
 
 // c44Dial performs the upgrade; status is the HTTP status when the upgrade was refused.
-func c44Dial(ctx context.Context, server string, idx int) (cl *c44Client, status int, err error) {
+func c44Dial(ctx context.Context, server string, idx int, trace func(ev string, args ...any)) (cl *c44Client, status int, err error) {
+	if trace == nil {
+		trace = d2cli.VerifTrace
+	}
 	var local string
 	var lmu sync.Mutex
 	tr := &http.Transport{
@@ -559,7 +567,7 @@ func c44Dial(ctx context.Context, server string, idx int) (cl *c44Client, status
 		return &c44Client{idx: idx, hid: fmt.Sprintf("h%d", idx), addr: addr}, status, err
 	}
 	c.SetReadLimit(1 << 28)
-	cl = &c44Client{idx: idx, hid: fmt.Sprintf("h%d", idx), conn: c, addr: addr, done: make(chan struct{})}
+	cl = &c44Client{idx: idx, hid: fmt.Sprintf("h%d", idx), conn: c, addr: addr, done: make(chan struct{}), trace: trace}
 	go cl.readLoop()
 	return cl, status, nil
 }
@@ -583,7 +591,7 @@ func (cl *c44Client) readLoop() {
 		cl.mu.Lock()
 		cl.recv = append(cl.recv, tag)
 		cl.mu.Unlock()
-		d2cli.VerifTrace("h-recv", cl.hid, tag)
+		cl.trace("h-recv", cl.hid, tag)
 	}
 }
 
@@ -649,6 +657,26 @@ type c44Env struct {
 	logBuf       *c44SyncBuf
 	aborted      bool
 	tmpN         int
+	recent       []d2cli.VerifEvent // last events fed (diagnostics)
+
+	// black-box mode: a real `d2 --watch` process streaming its trace to a file
+	proc *c44Proc
+}
+
+func (h *c44Env) addr() string {
+	if h.proc != nil {
+		return h.proc.addr
+	}
+	return h.vw.Addr()
+}
+
+// trace puts a harness event into the total order.
+func (h *c44Env) trace(ev string, args ...any) {
+	if h.proc != nil {
+		h.proc.harnessEvent(ev, args...)
+		return
+	}
+	d2cli.VerifTrace(ev, args...)
 }
 
 func c44Start(prop string, res *run.Result, initial []byte, tracing bool) (*c44Env, error) {
@@ -683,8 +711,18 @@ func (h *c44Env) goRun() {
 }
 
 func (h *c44Env) pump() {
-	for _, e := range d2cli.VerifEvents(h.m.n) {
+	var evs []d2cli.VerifEvent
+	if h.proc != nil {
+		evs = h.proc.read(h.m.n)
+	} else {
+		evs = d2cli.VerifEvents(h.m.n)
+	}
+	for _, e := range evs {
 		h.m.feed(e)
+		h.recent = append(h.recent, e)
+	}
+	if len(h.recent) > 128 {
+		h.recent = append([]d2cli.VerifEvent(nil), h.recent[len(h.recent)-64:]...)
 	}
 }
 
@@ -717,16 +755,16 @@ func (h *c44Env) waitFor(what string, cond func() bool) bool {
 		return false
 	}
 	start := time.Now()
-	lastN, lastProgress := h.m.n, time.Now()
+	lastN, lastProgress := h.m.prog, time.Now()
 	for i := 0; ; i++ {
 		h.pump()
 		if cond() {
 			return true
 		}
-		if h.m.n != lastN {
-			lastN, lastProgress = h.m.n, time.Now()
+		if h.m.prog != lastN {
+			lastN, lastProgress = h.m.prog, time.Now()
 		}
-		if i%100 == 99 && h.m.prop == "C44" {
+		if i%150 == 149 && h.m.prop == "C44" {
 			if s := c44BroadcastBlocked(); s != "" {
 				heldClient := false
 				for _, n := range h.m.held {
@@ -741,7 +779,7 @@ func (h *c44Env) waitFor(what string, cond func() bool) bool {
 				}
 				if time.Since(lastProgress) > 10*time.Second {
 					h.pump()
-					if h.m.n == lastN && c44BroadcastBlocked() != "" {
+					if h.m.prog == lastN && c44BroadcastBlocked() != "" {
 						h.res.Viol("C44.stall", "C44.stall:broadcast-blocked-on-client-wakeup-channel", "no event for 10 s and broadcast is parked sending a client wake-up while holding wsclientsMu (deadlock with a client handler that is exiting); waiting for "+what+"; "+s)
 						h.aborted = true
 						return false
@@ -753,7 +791,7 @@ func (h *c44Env) waitFor(what string, cond func() bool) bool {
 			h.inconclusive(fmt.Sprintf("watchdog: %s not reached, no event for %v (events %d, compile loop %s, req %d/%d/%d wakes %d)", what, time.Since(lastProgress).Round(time.Second), h.m.n, h.m.clLast, h.m.reqEnter, h.m.reqSent, h.m.reqCoal, h.m.clWake))
 			return false
 		}
-		time.Sleep(time.Millisecond)
+		time.Sleep(2 * time.Millisecond)
 	}
 }
 
@@ -781,7 +819,12 @@ func (h *c44Env) write(k int, kind, style string, gapMs int) error {
 	default:
 		err = os.WriteFile(h.in, data, 0o644)
 	}
-	d2cli.VerifTrace("h-write-done", k, style)
+	if h.proc != nil {
+		// everything the process logged up to now is ordered before the write's
+		// completion (conservative: some of it may really have happened after)
+		h.pump()
+	}
+	h.trace("h-write-done", k, style)
 	return err
 }
 
@@ -826,6 +869,17 @@ func (h *c44Env) quiescent() (bool, string) {
 // shutdown closes the watcher and waits for run() to return; bounded because a mutant can
 // make close() itself hang.
 func (h *c44Env) shutdown() {
+	if h.proc != nil {
+		h.proc.stop(h)
+		for _, cl := range h.clients {
+			if cl.conn != nil {
+				cl.conn.CloseNow()
+			}
+		}
+		h.pump()
+		os.RemoveAll(h.dir)
+		return
+	}
 	d2cli.VerifClearPoints()
 	done := make(chan struct{})
 	go func() {
@@ -860,7 +914,7 @@ func (h *c44Env) tailLog(n int) string {
 }
 
 func (h *c44Env) tailEvents(n int) string {
-	evs := d2cli.VerifEvents(0)
+	evs := h.recent
 	if len(evs) > n {
 		evs = evs[len(evs)-n:]
 	}
